@@ -63,7 +63,8 @@ def _run_variant(args):
             if rr["instances"] < rr["floor"]:
                 raise AnalysisError("rule %s below floor" % rid)
     except AnalysisError as e:
-        return ("analysis-error", str(e))
+        if not rep.findings:
+            return ("analysis-error", str(e))
     found = sorted({(f.rule, f.key) for f in rep.findings})
     if not found and rep.undecided:
         return ("analysis-error", "undecided: %s" % [u[:2] for u in rep.undecided][:3])
